@@ -278,8 +278,11 @@ def b_set(V, st, args, kwargs, node):
     if items is not None:
         return MFrozen(items)
     if isinstance(v, SV) and isinstance(v.t, SeqT):
-        x = z3.FreshConst(sort_of(v.t.elem), 'e')
-        return SV(SetT(v.t.elem), z3.Lambda([x], z3.Contains(v.z, z3.Unit(x))))
+        # set(seq): a fresh set constant characterised by membership (no lambda: portable across solvers)
+        r = fresh(SetT(v.t.elem), 'setof')
+        x = z3.Const(fresh_name('e'), sort_of(v.t.elem))
+        st.assume(z3.ForAll([x], z3.Select(r.z, x) == z3.Contains(v.z, z3.Unit(x))))
+        return r
     raise Unsupported('set() of %r' % (v,))
 
 
